@@ -271,7 +271,7 @@ Definition probe_cross_level : list opinfo :=
     mkInfo 7 BOther [] [] 2 true 7 ].                  (* outer yield *)
 
 Theorem cross_level_backedge_refuted :
-  barriers probe_cross_level = [5] /\ ~ In 7 (barriers probe_cross_level) /\ classify_pair probe_cross_level 3 5 = 2.
+  barriers probe_cross_level = [5] /\ ~ In 7 (barriers probe_cross_level) /\ classify_pair probe_cross_level false 3 5 = 2.
 Proof. vm_compute. split; [reflexivity|]. split; [intros [H|[]]; discriminate | reflexivity]. Qed.
 
 (* (a) the compute op reads a view (value 103 defined by op 2 from 101): no common SSA value *)
@@ -281,7 +281,7 @@ Definition probe_alias : list opinfo :=
     mkInfo 3 BDM [100; 101] [] 0 false 0;
     mkInfo 4 BCompute [103; 102] [] 0 false 0 ].
 
-Theorem alias_via_view_refuted : barriers probe_alias = [] /\ classify_pair probe_alias 3 4 = 1.
+Theorem alias_via_view_refuted : barriers probe_alias = [] /\ classify_pair probe_alias true 3 4 = 1.
 Proof. vm_compute. split; reflexivity. Qed.
 
 (* (c) copy (2); scf.if (3) { generic (4) }; generic (5): the barrier before 4 clears the list *)
@@ -292,7 +292,7 @@ Definition probe_branch : list opinfo :=
     mkInfo 4 BCompute [101; 102] [] 3 false 0;
     mkInfo 5 BCompute [101; 102] [] 0 false 0 ].
 
-Theorem ctl_between_refuted : barriers probe_branch = [4] /\ classify_pair probe_branch 2 5 = 3.
+Theorem ctl_between_refuted : barriers probe_branch = [4] /\ classify_pair probe_branch true 2 5 = 3.
 Proof. vm_compute. split; reflexivity. Qed.
 
 (* non-vacuity of the class: loop body copy; generic; copy; yield *)
@@ -306,7 +306,7 @@ Definition probe_loop : list opinfo :=
 
 Example same_level_nonvacuous :
   must_sync (nth 2 probe_loop (mkInfo 0 BOther [] [] 0 false 0)) (nth 3 probe_loop (mkInfo 0 BOther [] [] 0 false 0)) = true /\
-  barriers probe_loop = [6; 5; 4] /\ classify_pair probe_loop 3 4 = 0.
+  barriers probe_loop = [6; 5; 4] /\ classify_pair probe_loop true 3 4 = 0 /\ classify_pair probe_loop false 4 3 = 0.
 Proof. vm_compute. repeat split; reflexivity. Qed.
 
 (* ---- barriers_unguarded: after dispatching, every core executes the same barriers -------------- *)
